@@ -155,7 +155,7 @@ def c11_4(ctx):
     fn = ctx.repo.fn('_dictable:dictable.xyz')
     grid = [s for s in fn.body if isinstance(s, ast.Assign) and U(s.targets[0]) == 'res']
     ctx.count(1, fn.where())
-    if not grid or N(grid[0].value) != '[[None for _ in range(len(ys))] for _ in range(len(xs))]':
+    if not grid or N(grid[0].value) not in ('[[None for _ in range(len(ys))] for _ in range(len(xs))]', '[[None] * len(ys) for _ in range(len(xs))]'):   # a fresh row of Nones per x, either way
         ctx.fail(fn, grid[0] if grid else fn.node, 'pivot grid is not initialised with None for every (x, y) cell: %s' % (U(grid[0].value) if grid else '?'))
     st = [s for s in ast.walk(fn.node) if isinstance(s, ast.Assign) and N(s.targets[0]) == 'res[i][k]']
     ctx.count(1)
@@ -175,7 +175,11 @@ def c11_4(ctx):
         ctx.fail(fn, fn.node, 'aggregators are no longer applied in order to the cell values')
     loops = [s for s in fn.body if isinstance(s, ast.For)]
     ctx.count(1)
-    if not loops or N(loops[0].iter) != 'range(len(xs))' or not any(isinstance(x, ast.For) and N(x.iter) == 'yids[i]' for x in loops[0].body):
+    by_index = bool(loops) and N(loops[0].iter) == 'range(len(xs))' and any(isinstance(x, ast.For) and N(x.iter) == 'yids[i]' for x in loops[0].body)
+    # xs, yids = rs._listby(x) are parallel lists: enumerating yids visits the same (i, yids[i]) pairs
+    by_enum = bool(loops) and N(loops[0].iter) == 'enumerate(yids)' and isinstance(loops[0].target, ast.Tuple) and len(loops[0].target.elts) == 2 and U(loops[0].target.elts[0]) == 'i' \
+        and any(isinstance(x, ast.For) and U(x.iter) == U(loops[0].target.elts[1]) for x in loops[0].body)
+    if not (by_index or by_enum):
         ctx.fail(fn, loops[0] if loops else fn.node, 'pivot does not visit every (x, y) group of every x row')
     rr = returns_of(fn.node)
     upd = [c for c in calls_in(fn.node, 'update') if U(c.func.value) == 'dx']
